@@ -154,6 +154,39 @@ class Session:
                         return Outcome('termdiff', model=m, who=who, pairs=npairs)
         return Outcome('equal', pairs=npairs, bound_hits=len(ha) + len(hb), paths=(len(fa), len(fb)))
 
+    def can_differ(self, va, vb, names, events=False, runs_a=None, cap=400):
+        """which observables differ for SOME initial state (the failure signature of a disagreeing pair of programs): a sorted list of
+        labels, decided per observable over every pair of final paths - independent of the model the solver happened to return"""
+        if runs_a is not None: fa, ha = runs_a
+        else: fa, ha, _ = self.run(va)
+        fb, hb, _ = self.run(vb)
+        k = z3.BitVec('kptr', 16)
+        sig, nq = set(), 0
+        for a in fa:
+            oa = observables_of(va, names, a)
+            for b in fb:
+                ob = observables_of(vb, names, b)
+                if self.check(a.pcond + b.pcond) is None: continue
+                for (na, xa), (nb_, xb) in zip(oa, ob):
+                    if na in sig: continue
+                    d = differ([(na, xa)], [(nb_, xb)])
+                    if d is False: continue
+                    nq += 1
+                    if nq > cap: sig.add('...'); return sorted(sig)
+                    if d is True or self.check(a.pcond + b.pcond + [d]) is not None: sig.add(na)
+                if 'mem[*]' not in sig and not a.M.arr.eq(b.M.arr):
+                    rd = z3.And(z3.UGE(k, PTR_LO), z3.ULE(k, PTR_HI), z3.Select(a.M.arr, k) != z3.Select(b.M.arr, k))
+                    if self.check(a.pcond + b.pcond + [rd]) is not None: sig.add('mem[*]')
+                if events and 'events' not in sig:
+                    ed = events_differ(a.events, b.events)
+                    if ed is True or (ed is not False and self.check(a.pcond + b.pcond + [ed]) is not None): sig.add('events')
+        for fin, hit in ((fa, hb), (fb, ha)):
+            for h in hit:
+                if 'termination' in sig: break
+                for f in fin:
+                    if self.check(f.pcond + h.pcond) is not None: sig.add('termination'); break
+        return sorted(sig)
+
     # ------------------------------------------------------------------ model -> concrete replay
     def concretize(self, model, variants):
         ev = lambda t: model.eval(t, model_completion=True).as_long()
